@@ -133,7 +133,9 @@ def nt_adf(st):
     return int(st.get("n", 0)) >= 2 and int(st.get("nodes", 0)) >= 5
 
 
-SEM_RULE = ("generated ADFs (1-6 statements, quick; up to 7 thorough): 60% random formulas over all nine constructors (depth 1-4), 40% adversarial families "
+SEM_RULE = ("WIDE frameworks (65-90 statements, thorough up to 130: a small undecided core at random positions - also beyond index 63 - plus dependents, everything else decided by "
+            "grounding in layers; the oracle beyond truth-table size is the VERIFIED model run on a fresh store, whose exactness for every n is the theorem of the property); "
+            "generated ADFs (1-6 statements, quick; up to 7 thorough): 60% random formulas over all nine constructors (depth 1-4), 40% adversarial families "
             "(propagation chains needing n grounding rounds, self-support, odd/even attack cycles, false-before-true dependencies, conditions constant only under grounding, "
             "all-decided, xor/iff webs, conjunctive supports) plus the two pre-study instances; each ADF is parsed by the real parser from generated text and run on the native, "
             "biodivine, hybrid and pre-grounded hybrid back-ends in random request order; native-store pipelines are compared handle for handle (vectors, residuals, node table) with the "
@@ -152,7 +154,8 @@ PROPS["C01"] = dict(
     technique="Lean 4 proof (least-fixpoint argument over a generic restriction algebra, instantiated with the verified BDD store) + correspondence check + brute-force specification oracle",
     jobs=[Job("adf", 1200, 40000, size=6, size_thorough=7, extra=("sem",),
               relevant=heads("build", "adopt", "grounded", "adump", "wfcheck"), nontrivial=nt_adf),
-          Job("adf", 0, 1, size=2, extra=("exh2",), relevant=heads("build", "adopt", "grounded", "adump", "wfcheck"), nontrivial=lambda st: True, label="exhaustive-2-statements")],
+          Job("adf", 0, 1, size=2, extra=("exh2",), relevant=heads("build", "adopt", "grounded", "adump", "wfcheck"), nontrivial=lambda st: True, label="exhaustive-2-statements"),
+          Job("adf", 120, 4000, size=90, size_thorough=130, extra=("wide",), relevant=heads("build", "adopt", "grounded", "adump", "wfcheck"), nontrivial=lambda st: int(st.get("n", 0)) >= 65, label="wide")],
     rule=SEM_RULE,
     assumptions=["well-formed ADFs (every statement declared with exactly one ac, atoms declared); <= 2^16 statements for biodivine"],
 )
@@ -172,7 +175,10 @@ PROPS["C02"] = dict(
     technique="Lean 4 proof (filter = fixpoint test; iterator theorem; least-fixpoint lower bound) + handle-exact correspondence + verified brute-force specification",
     jobs=[Job("adf", 1200, 40000, size=6, size_thorough=7, extra=("sem",),
               relevant=heads("build", "adopt", "complete", "adump", "wfcheck"), nontrivial=nt_adf),
-          Job("adf", 0, 1, size=2, extra=("exh2",), relevant=heads("build", "adopt", "complete", "adump", "wfcheck"), nontrivial=lambda st: True, label="exhaustive-2-statements")],
+          Job("adf", 0, 1, size=2, extra=("exh2",), relevant=heads("build", "adopt", "complete", "adump", "wfcheck"), nontrivial=lambda st: True, label="exhaustive-2-statements"),
+          Job("adf", 120, 4000, size=90, size_thorough=130, extra=("wide",), relevant=heads("build", "adopt", "complete", "adump", "wfcheck"), nontrivial=lambda st: int(st.get("n", 0)) >= 65, label="wide"),
+          Job("adf", 60, 1500, size=90, size_thorough=130, extra=("wideund",), fsets=("default-oc",), relevant=heads("build", "adopt", "grounded", "completefirst", "adump", "wfcheck"),
+              nontrivial=lambda st: int(st.get("n", 0)) >= 41, label="many-undecided-overflow-checks")],
     rule=SEM_RULE,
     assumptions=["well-formed ADFs"],
 )
@@ -193,7 +199,8 @@ PROPS["C03"] = dict(
     jobs=[Job("adf", 1200, 40000, size=6, size_thorough=7, extra=("sem",),
               relevant=heads("build", "adopt", "stable", "stablepre", "stablerew", "stablerew2", "adump", "wfcheck"), nontrivial=nt_adf),
           Job("adf", 0, 1, size=2, extra=("exh2",), relevant=heads("build", "adopt", "stable", "stablepre", "stablerew", "stablerew2", "adump", "wfcheck"), nontrivial=lambda st: True, label="exhaustive-2-statements"),
-          Job("adf", 200, 8000, size=5, size_thorough=6, extra=("present",), relevant=heads("present", "presented"), nontrivial=nt_adf, label="adf-orders")],
+          Job("adf", 200, 8000, size=5, size_thorough=6, extra=("present",), relevant=heads("present", "presented"), nontrivial=nt_adf, label="adf-orders"),
+          Job("adf", 120, 4000, size=90, size_thorough=130, extra=("wide",), relevant=heads("build", "adopt", "stable", "stablepre", "adump", "wfcheck"), nontrivial=lambda st: int(st.get("n", 0)) >= 65, label="wide")],
     rule=SEM_RULE,
     assumptions=["well-formed ADFs"],
 )
@@ -215,7 +222,8 @@ PROPS["C04"] = dict(
     technique="Lean 4 proof (generic branching-search machine instantiated with the concrete steps; invariants WF + model-relative residuals + will_be) + handle-exact correspondence + brute-force specification oracle",
     jobs=[Job("adf", 1500, 60000, size=6, size_thorough=7, extra=("count",),
               relevant=heads("build", "adopt", "stmca", "stmcb", "adump", "wfcheck"), nontrivial=nt_adf),
-          Job("adf", 0, 1, size=2, extra=("exh2",), relevant=heads("build", "adopt", "stmca", "stmcb", "adump", "wfcheck"), nontrivial=lambda st: True, label="exhaustive-2-statements")],
+          Job("adf", 0, 1, size=2, extra=("exh2",), relevant=heads("build", "adopt", "stmca", "stmcb", "adump", "wfcheck"), nontrivial=lambda st: True, label="exhaustive-2-statements"),
+          Job("adf", 120, 4000, size=90, size_thorough=130, extra=("wide",), relevant=heads("build", "adopt", "stmca", "stmcb", "adump", "wfcheck"), nontrivial=lambda st: int(st.get("n", 0)) >= 65, label="wide")],
     rule=ADF_GEN + "stable_count_optimisation_heu_a/b on native, hybrid and pre-grounded hybrid objects in both call orders; emitted vectors (in order) and node tables compared with the Lean model, "
          "the multiset of answers with Spec.stableAll; non-trivial = distinct ADF with >= 2 statements and >= 5 nodes",
     assumptions=["well-formed ADFs"],
@@ -237,7 +245,8 @@ PROPS["C05"] = dict(
     technique="Lean 4 proof (safety invariant + well-founded big-step termination on a generic machine, closure laws of the concrete store, lock-step simulation to the concrete loop) + handle-exact correspondence incl. heuristic traces + specification oracle + hang watchdog",
     jobs=[Job("adf", 700, 30000, size=6, size_thorough=7, extra=("ng",), timeout=300,
               relevant=heads("build", "adopt", "ng", "ngch", "ngbig", "adump", "wfcheck"), nontrivial=nt_adf),
-          Job("adf", 0, 1, size=2, extra=("exh2",), relevant=heads("build", "adopt", "ng", "adump", "wfcheck"), nontrivial=lambda st: True, label="exhaustive-2-statements", timeout=300)],
+          Job("adf", 0, 1, size=2, extra=("exh2",), relevant=heads("build", "adopt", "ng", "adump", "wfcheck"), nontrivial=lambda st: True, label="exhaustive-2-statements", timeout=300),
+          Job("adf", 120, 4000, size=90, size_thorough=130, extra=("wide",), relevant=heads("build", "adopt", "ng", "adump", "wfcheck"), nontrivial=lambda st: int(st.get("n", 0)) >= 65, label="wide", timeout=600)],
     rule=ADF_GEN + "stable_nogood / two_val_nogood_channel / stable_nogood_channel with Simple, both counting heuristics, 4 scripted custom heuristics (PRNG-chosen undecided statement and value per call, "
          "trace logged) and 3 Rand seeds per ADF, on native and bridged objects; outputs in order + traces + node tables vs the Lean model, multisets vs Spec; non-trivial = distinct ADF with >= 2 statements and >= 5 nodes",
     assumptions=["well-formed ADFs; custom heuristics always propose an undecided statement with a truth value"],
@@ -382,18 +391,26 @@ PROPS["C18"] = dict(
                "the search relies on (closure_flip); the unrepaired code violates the theorems on the witnesses of D8a, D8b, D10 (unrepaired_*). The brute-force specification that judges the "
                "IMPLEMENTATION's answers is proved to mean the property and the model is proved to pass it (spec_*_meaning, model_passes_spec). Tie to the code: add_ng / conclusions / "
                "conclusion_closure (hook) / store dumps (hook) on generated histories, compared with the model and judged by the specification.",
-    level_note="Trusted: Lean kernel + standard axioms; RoaringBitmap pairs modelled as List (Option Bool); hooks verif_conclusion_closure / verif_dump; the tie is differential (<= 8 variables, <= 8 nogoods); "
+    level_note="Trusted: Lean kernel + standard axioms; RoaringBitmap pairs modelled as List (Option Bool); hooks verif_conclusion_closure / verif_dump; the tie is differential (<= 8 variables, <= 8 nogoods; wide stores: 11-160 variables, <= 12 nogoods of <= 5 literals); "
                "clauses that belong to the closure's contract with the search (unit flip, progress, update flag) are reported on the correspondence channel, not as C18 failures.",
     technique="Lean 4 proof (history induction on the bucketed store; line-by-line model proved equal to the verified one) + correspondence check + verified brute-force specification applied to the implementation's answers",
     jobs=[Job("ng", 20000, 400000, size=6, size_thorough=8,
-              relevant=heads("ngadd", "ngconcl", "ngclosure", "ngdump", "nogoodcheck"), nontrivial=nt_ng),
-          Job("ng", 1, 1, size=23, size_thorough=24, extra=("exh",), relevant=heads("ngadd", "ngconcl", "ngclosure", "ngdump", "nogoodcheck"),
+              relevant=heads("ngadd", "ngconcl", "ngclosure", "ngdump", "ngchain", "nogoodcheck"), nontrivial=nt_ng),
+          Job("ng", 1, 1, size=23, size_thorough=24, extra=("exh",), relevant=heads("ngadd", "ngconcl", "ngclosure", "ngdump", "ngchain", "nogoodcheck"),
               nontrivial=lambda st: True, label="exhaustive-2-variables", timeout=1800),
-          Job("ng", 0, 1, size=33, extra=("exh",), relevant=heads("ngadd", "ngconcl", "ngclosure", "ngdump", "nogoodcheck"),
-              nontrivial=lambda st: True, label="exhaustive-3-variables", timeout=3600)],
+          Job("ng", 0, 1, size=33, extra=("exh",), relevant=heads("ngadd", "ngconcl", "ngclosure", "ngdump", "ngchain", "nogoodcheck"),
+              nontrivial=lambda st: True, label="exhaustive-3-variables", timeout=3600),
+          Job("ng", 3000, 60000, size=160, extra=("wide",),
+              relevant=heads("ngadd", "ngconcl", "ngclosure", "ngdump", "ngchain", "nogoodcheck"), nontrivial=nt_ng, label="wide-stores")],
     rule="EXHAUSTIVE small scope: every sequence of <= 3 (thorough: <= 4) nogoods over 2 variables and (thorough) of <= 3 nogoods over 3 variables, the empty nogood included, under each mode, "
          "queried with every interpretation (conclusions and closure); and random histories of 0-8 add_ng over 0-6 variables (empty, full-length, nested, duplicate, subsuming, complementary nogoods), all three modes with switches mid-history, interpretations incl. "
          "matching / almost-matching / total ones; store dump after every add, conclusions and conclusion_closure answers judged by the brute-force specification and compared with the model; "
+         "every NoGood object (nogood or interpretation) is built along a constructor path chosen from the request text (from_term_vec, try_from_pair_iter, new_single_nogood, or a disjunction of "
+         "2-3 parts partitioning the literals), and a quarter of the queries are ngchain: conclusions fed with the OBJECT it returned (<= 3 steps), every step judged by the specification; "
+         "WIDE stores (job wide-stores): 11-160 variables (widths around 64 and 128 or random), histories of 2-12 nogoods with 1-5 literals on positions around the 32/64/128 word boundaries and "
+         "shifted copies congruent modulo 32/64/128 with equal values, duplicates, sub-/supersets, complements, all three modes with switches, interpretations matching / almost matching them, "
+         "the same requests incl. ngchain, judged by the search-based specification (Spec/NgWide.lean: avoidingExt, proved sound, complete and equal in verdict to the brute-force one: "
+         "C18.wide_spec_sound, wide_spec_complete, wide_spec_eq, wide_spec_store, model_passes_wide_spec); "
          "non-trivial = distinct history with >= 2 nogoods and >= 1 conflict or conclusion",
     assumptions=["nogoods/interpretations are vectors of the store's width (add_ng panics beyond: stated precondition)"],
 )
@@ -1052,7 +1069,7 @@ def setup():
         print(out[-3000:])
         return 1
     R.log(f"lake build ok ({time.time() - t0:.0f} s)")
-    for fset in ("default", "none", "all"):
+    for fset in ("default", "none", "all", "default-oc"):
         ok, err = R.build_harness(fset)
         if not ok:
             print(err)
